@@ -53,15 +53,17 @@ type Target struct {
 	Timeout     string            `json:"timeout,omitempty"`
 	Checks      []Check           `json:"checks,omitempty"`
 	// behaviour knobs (part of the command text)
-	FailExit int    `json:"fail_exit,omitempty"`
-	FailIf   string `json:"fail_if,omitempty"`
-	SleepMs  int    `json:"sleep_ms,omitempty"`
-	TrapTerm bool   `json:"trap_term,omitempty"` // the target's shell ignores SIGTERM
-	SleepIf  string `json:"sleep_if,omitempty"` // marker: sleep 20 s when present
-	Omit     string `json:"omit,omitempty"`
-	OmitIf   string `json:"omit_if,omitempty"` // marker: do not write outputs when present
-	Touch    string `json:"touch,omitempty"`   // marker created by the command (establishes a checked condition)
-	RawCmd   string `json:"raw_cmd,omitempty"` // if set, used verbatim as the command
+	FailExit  int    `json:"fail_exit,omitempty"`
+	FailIf    string `json:"fail_if,omitempty"`
+	SleepMs   int    `json:"sleep_ms,omitempty"`
+	TrapTerm  bool   `json:"trap_term,omitempty"` // the target's shell ignores SIGTERM
+	SleepIf   string `json:"sleep_if,omitempty"`  // marker: sleep 20 s when present
+	Omit      string `json:"omit,omitempty"`
+	OmitIf    string `json:"omit_if,omitempty"` // marker: do not write outputs when present
+	Touch     string `json:"touch,omitempty"`   // marker created by the command (establishes a checked condition)
+	Untouch   string `json:"untouch,omitempty"` // marker removed by the command while UntouchIf is present (the command itself breaks a checked condition)
+	UntouchIf string `json:"untouch_if,omitempty"`
+	RawCmd    string `json:"raw_cmd,omitempty"` // if set, used verbatim as the command
 }
 
 type Alias struct {
@@ -192,6 +194,9 @@ func (t *Target) Command() string {
 	}
 	if t.Touch != "" {
 		sb.WriteString(" --touch " + shq(t.Touch))
+	}
+	if t.Untouch != "" {
+		sb.WriteString(" --rmif " + shq(t.UntouchIf) + " --rm " + shq(t.Untouch))
 	}
 	if t.Quiet != "" {
 		sb.WriteString(" # " + t.Quiet)
@@ -497,12 +502,29 @@ func Produce(t *Target, in, dep string) map[string]tree.Tree {
 			res[o.Path] = tree.File([]byte(prov+filler), false)
 			continue
 		}
-		// directory output
+		// directory output; the base name selects a shape family: "flt*" = files only (no
+		// sub-directory at all), "dup*" = several byte-identical sub-directories, anything else
+		// = a hash-determined mix
 		var tr tree.Tree
 		tr.AddDir("")
+		base := path.Base(o.Path)
+		if strings.HasPrefix(base, "dup") {
+			for _, sub := range []string{"a/", "b/", "c/", "a/inner/"}[:int(h[2])%3+2] {
+				tr.AddFile(sub+"x.dat", []byte(prov+"idx=x\n"), false)
+				tr.AddFile(sub+"y.dat", []byte(prov+"idx=y\n"), int(h[3])%2 == 0)
+			}
+			tr.AddFile("top.dat", []byte(prov+"idx=top\n"), false)
+		}
 		nf := int(h[2])%5 + 1
+		if strings.HasPrefix(base, "dup") {
+			nf = 0
+		}
 		for i := 0; i < nf; i++ {
 			sub := ""
+			if strings.HasPrefix(base, "flt") {
+				tr.AddFile(fmt.Sprintf("f%d.dat", i), []byte(fmt.Sprintf("%sidx=%d\n", prov, i)), (int(h[12+i])%3) == 0)
+				continue
+			}
 			switch (int(h[3+i]) + i) % 4 {
 			case 1:
 				sub = "s1/"
@@ -520,7 +542,7 @@ func Produce(t *Target, in, dep string) map[string]tree.Tree {
 			}
 			tr.AddFile(fmt.Sprintf("%sf%d.dat", sub, i), []byte(content), (int(h[12+i])%3) == 0)
 		}
-		if int(h[20])%2 == 0 {
+		if int(h[20])%2 == 0 && !strings.HasPrefix(base, "flt") {
 			tr.AddDir("empty")
 		}
 		if int(h[21])%2 == 0 {
